@@ -489,7 +489,23 @@ func chunkIndexOf(f *prog.Func, call *ast.CallExpr) ast.Expr {
 	if !ok {
 		return nil
 	}
-	return indexOfChunks(f.Info(), se.X)
+	if ix := indexOfChunks(f.Info(), se.X); ix != nil {
+		return ix
+	}
+	// through a local alias: src := &chunks[i]; src.Clear()
+	if _, isId := prog.Unparen(se.X).(*ast.Ident); isId {
+		defs := f.DefsReaching(mustPath(f.Info(), se.X), call)
+		var ix ast.Expr
+		for _, d := range defs {
+			i2 := indexOfChunks(f.Info(), d.Rhs)
+			if i2 == nil || (ix != nil && !prog.SameExpr(f.Info(), ix, i2)) {
+				return nil
+			}
+			ix = i2
+		}
+		return ix
+	}
+	return nil
 }
 
 func indexOfChunks(info *types.Info, e ast.Expr) ast.Expr {
